@@ -1060,26 +1060,40 @@ class Exec:
         return c
 
     # ------------------------------------------------------------------ solver helpers on the path
+    def _qf(self, hyps):
+        """The quantifier-free hypotheses (cached per term id)."""
+        cache = self.__dict__.setdefault("_qf_cache", {})
+        out = []
+        for h in hyps:
+            k = h.get_id()
+            if k not in cache:
+                cache[k] = not _has_quantifier(h)
+            if cache[k]:
+                out.append(h)
+        return out
+
     def feasible(self, st):
+        """Path pruning: a path is dropped only when its quantifier-free assumptions are already
+        contradictory (sound: a subset is unsat).  Quantifier-free queries take milliseconds, so the
+        VC text does not depend on machine load."""
         if not st.pc:
             return True
         s = z3.Solver()
-        s.set("timeout", 400)
-        s.add(*st.pc)
+        s.set("timeout", 2000)
+        s.add(*self._qf(st.pc))
         return s.check() != z3.unsat
 
     def implied(self, st, fact):
-        """Cheap entailment test used only to simplify terms (never to decide an obligation)."""
-        from .solve import slices
-        o = Obl("implied", list(st.pc), to_z3(fact), "implied", 0, self.fnname)
-        for _, hyps in slices(o, levels=(1, 2)):
-            s = z3.Solver()
-            s.set("timeout", 200)
-            s.add(*hyps)
-            s.add(z3.Not(o.goal))
-            if s.check() == z3.unsat:
-                return True
-        return False
+        """Cheap entailment test used only to simplify terms (never to decide an obligation):
+        from the quantifier-free assumptions only."""
+        f = to_z3(fact)
+        if _has_quantifier(f):
+            return False
+        s = z3.Solver()
+        s.set("timeout", 2000)
+        s.add(*self._qf(st.pc))
+        s.add(z3.Not(f))
+        return s.check() == z3.unsat
 
     # ------------------------------------------------------------------ comparisons / arithmetic
     def cmp_eq(self, a, b):
@@ -1831,6 +1845,20 @@ class Exec:
 
     def expr_Slice(self, node, st):
         raise EngineError("bare slice outside the subset")
+
+
+def _has_quantifier(e):
+    seen = set()
+    todo = [e]
+    while todo:
+        x = todo.pop()
+        if x.get_id() in seen:
+            continue
+        seen.add(x.get_id())
+        if z3.is_quantifier(x):
+            return True
+        todo.extend(x.children())
+    return False
 
 
 def _is_uf_app(t):
